@@ -363,6 +363,18 @@ def gen_program(r):
     # make inferiors/superiors of some names likely
     names += [names[0] + DELIM + r.choice(PARTS[:6]), r.choice(['INBOX', 'inbox', 'Inbox/x', 'INBOX/k'])]
     prog = []
+    if r.random() < 0.5:
+        # siblings whose names extend another name as a *string* but not as a hierarchy (foo / foobar / foo-old): a RENAME or
+        # DELETE of the shorter one must leave them alone
+        base = r.choice(names[:-1])
+        twins = [base + r.choice(['bar', '-old', 'b', ' 2', 'é'])]
+        if r.random() < 0.5:
+            twins.append(base + DELIM + r.choice(PARTS[:3]))
+        names += twins
+        prog += [['create', base]] + [['create', t] for t in twins]
+        if r.random() < 0.7:
+            prog.append(['append', twins[0]])
+        prog.append(['rename', base, gen_name(r)] if r.random() < 0.7 else ['delete', base])
     for _ in range(r.randint(4, 14)):
         x = r.random()
         n = r.choice(names)
